@@ -643,7 +643,8 @@ def write_evidence(prop, tier, seed, P, results, wall, nviol, known_hits, digest
         hs.append({
             "harness": h["name"], "status": status, "why": res.get("why"),
             "core": h.get("core", True), "bound": h.get("bound"), "oracle": h.get("oracle"),
-            "symbolic_inputs": h.get("symbolic"),
+            "symbolic_inputs": h.get("symbolic"), "functions_encoded": h.get("encodes"),
+            "declared_stubs_and_rewrites": h.get("stubs"),
             "cbmc_checks": res["checks_total"],
             "cover_witnesses": [{"desc": c["desc"], "status": c["status"]} for c in res["covers"]],
             "cbmc_time_s": res.get("verification_time_s"), "solver_time_s": res.get("solver_time_s"),
